@@ -178,8 +178,19 @@ fn replay(p: &std::path::Path) {
     let rules: Vec<NetworkFilter> = lines.iter().filter_map(|l| parse(l)).collect();
     let e = build(&lines, &tagrefs, false);
     let (mr, fc) = (rp["matched_rule"].as_bool().unwrap_or(false), rp["force_check_exceptions"].as_bool().unwrap_or(false));
-    let got = engine_verdict_p(&e, &req, mr, fc);
+    let mut got = engine_verdict_p(&e, &req, mr, fc);
     let want = spec_p(&rules, &tags.iter().cloned().collect(), &req, mr, fc);
+    if rp["incremental"].as_bool().unwrap_or(false) {
+        // every split point of the list: batch prefix + add_filter for the rest
+        for k in 0..=rules.len() {
+            let mut b = adblock::blocker::Blocker::new(rules[..k].to_vec(), &adblock::blocker::BlockerOptions { enable_optimizations: false });
+            for f in rules[k..].iter() { let _ = b.add_filter(f.clone()); }
+            b.use_tags(&tagrefs);
+            let res = b.check_parameterised(&req, &adblock::resources::ResourceStorage::default(), mr, fc);
+            let gl = V { matched: res.matched, important: res.important, exception: res.exception.is_some(), filter: res.filter.is_some() };
+            if gl != want { println!("split at {}: {:?}", k, gl); got = gl; break; }
+        }
+    }
     println!("engine={:?}\nrule-by-rule={:?}", got, want);
     if got != want {
         println!("VIOLATION property=C01 replay={}", p.display());
@@ -341,6 +352,19 @@ fn main() {
             );
         }
 
+        // the same rules on a live Blocker: batch for a prefix, add_filter for the rest (lists without
+        // $badfilter, which add_filter refuses); queried below next to the engine
+        let live_blocker: Option<adblock::blocker::Blocker> = if lines.iter().any(|l| l.contains("badfilter")) { None } else {
+            let k = r.below(rules.len() + 1);
+            let mut b = adblock::blocker::Blocker::new(rules[..k].to_vec(), &adblock::blocker::BlockerOptions { enable_optimizations: false });
+            for f in rules[k..].iter() {
+                let _ = b.add_filter(f.clone());
+            }
+            b.use_tags(tags);
+            cs.stat("live_blocker_prefix_plus_add_filter");
+            Some(b)
+        };
+
         let nq = 3;
         for _ in 0..nq {
             let url = if r.chance(if li % 3 == 0 { 3 } else { 1 }, if li % 3 == 0 { 4 } else { 2 }) { { let k = r.below(lines.len()); gen::url_for(&mut r, &lines[k]) } } else { gen::url(&mut r) };
@@ -367,6 +391,16 @@ fn main() {
             let got = engine_verdict_p(&e, &req, mr, fc);
             let want = spec_p(&rules, &tagset, &req, mr, fc);
             sm.oracle_evaluations += 1;
+            if let Some(b) = &live_blocker {
+                let rs = adblock::resources::ResourceStorage::default();
+                let res = b.check_parameterised(&req, &rs, mr, fc);
+                let gl = V { matched: res.matched, important: res.important, exception: res.exception.is_some(), filter: res.filter.is_some() };
+                sm.oracle_evaluations += 1;
+                if gl != want && got == want {
+                    sm.failure(None, &format!("a Blocker built from a prefix of the list plus add_filter for the rest says {:?}, rule-by-rule evaluation says {:?} (the batch engine agrees with the latter)", gl, want),
+                        json!({"rules": lines, "tags": tags, "url": url, "source": src, "type": ty, "matched_rule": mr, "force_check_exceptions": fc, "incremental": true}));
+                }
+            }
             let desc = json!({"rules": lines, "tags": tags, "url": url, "source": src, "type": ty, "matched_rule": mr, "force_check_exceptions": fc, "matching_ids": matching, "impl": vjson(&got)});
             if got != want {
                 // is every lost rule in a known class?
